@@ -1292,7 +1292,15 @@ impl<'de, 'e> de::Deserializer<'de> for YamlDeserializer<'de, 'e> {
                     // if the scalar is returned as `Cow::Borrowed`, we can pass it through.
                     // Otherwise we fall back to owning.
                     if *tag == SfTag::Binary && !self.cfg.ignore_binary_tag_for_string {
-                        return visitor.visit_string(self.take_string_scalar()?);
+                        // Text when the payload is text, bytes otherwise: a binary value that
+                        // is not UTF-8 is still a value an untyped or ignoring target can hold.
+                        let (value, _tag, location) = self.take_scalar_event()?;
+                        let data = decode_base64_yaml(&value)
+                            .map_err(|err| err.with_location(location))?;
+                        return match String::from_utf8(data) {
+                            Ok(text) => visitor.visit_string(text),
+                            Err(not_text) => visitor.visit_byte_buf(not_text.into_bytes()),
+                        };
                     }
                     if !tag.can_parse_into_string()
                         && *tag != SfTag::NonSpecific
